@@ -1,13 +1,20 @@
 use std::io::{self, Write};
 
-use crate::{io::writer::num::write_f32_le, record::codec::value::Float};
+use crate::{
+    io::writer::num::write_f32_le,
+    record::codec::{encoder::value::validate_float, value::Float},
+};
 
 pub(super) fn write_quality_score<W>(writer: &mut W, quality_score: Option<f32>) -> io::Result<()>
 where
     W: Write,
 {
-    let float = quality_score.map(Float::from).unwrap_or(Float::Missing);
-    write_f32_le(writer, f32::from(float))
+    let n = match quality_score {
+        Some(n) => validate_float(n)?,
+        None => f32::from(Float::Missing),
+    };
+
+    write_f32_le(writer, n)
 }
 
 #[cfg(test)]
